@@ -150,8 +150,12 @@ def _parse_wrap_args(args, registry=None):
         # third pass: convert other arguments
         for ndx in unit_args_ndx:
             if isinstance(values[ndx], ureg.Quantity):
+                # the declared units were parsed without a registry (float exponents):
+                # convert with a container of the registry's own numeric type
                 values[ndx] = ureg._convert(
-                    values[ndx]._magnitude, values[ndx]._units, args_as_uc[ndx][0]
+                    values[ndx]._magnitude,
+                    values[ndx]._units,
+                    ureg.UnitsContainer(args_as_uc[ndx][0]),
                 )
             else:
                 if strict:
